@@ -27,7 +27,14 @@ SaveClauses(r) ==
   IF r.exc # "" THEN << <<"NoException", FALSE>> >>
   ELSE <<
     <<"PathRule", r.nfiles = 1 /\ r.created = FinalPath(r.path)>>,
-    <<"HeaderLine", Len(r.lines) >= 1 /\ r.lines[1] = Header(NamesOf(r), UnitsOf(r))>>,
+    (* the header is the text built from the semantics; where a semantics string contains line  *)
+    (* breaks they may only have become blanks (the characters other than blanks and breaks are  *)
+    (* the same, in order)                                                                      *)
+    <<"HeaderLine", Len(r.lines) >= 1 /\
+         LET h == Header(NamesOf(r), UnitsOf(r)) IN
+           IF HasBreak(h) THEN Solid(r.lines[1]) = Solid(h) ELSE r.lines[1] = h>>,
+    (* lines = the file split at LF, CR LF and CR: one header line + one line per point *)
+    <<"OneHeaderLine", Len(r.lines) = 1 + Len(r.coords) /\ ~HasBreak(r.lines[1])>>,
     <<"RowCount", Len(r.lines) = 1 + Len(r.coords) /\ r.endsnl>>,
     <<"RowText", Len(r.lines) = 1 + Len(r.coords)
                   /\ \A k \in 1..Len(r.coords) : r.lines[k + 1] = Row(r.coords[k])>>,
